@@ -21,12 +21,15 @@ CHECK = {
             "remote peer / an update by a peer the observer does not trust; distinct by case line. pol: a zero cluster Config taken through "
             "1-6 steps of Default / LoadJSON (valid file + policy entries under three key spellings) / ApplyEnvVars (CLUSTER_RPCPOLICY-like "
             "variables set) / the follower's assignment; Config.RPCPolicy against the shipped table, Validate(), and r1 (trusted) / r2 (untrusted) "
-            "calling the named + 13 sample endpoints on the real server built from that Config. Every served Config goes through Validate() first, as in NewCluster",
+            "calling the named + 13 sample endpoints on the real server built from that Config. Every served Config goes through Validate() first, as in NewCluster. "
+            "Step H (1 in 7 + 5 boundary cases) is the daemon's path: a fresh Config loaded by the real cmdutils.NewLoadedConfigHelper from a service.json written to a scratch "
+            "directory (cluster section extended by the injected policy objects), then SetupTracing; the case continues with Configs().Cluster",
     "trusted_base": ["extract_c07 pattern matcher (fails closed) and go/ast, reflect",
                      "gorpc applies the authorization function to every remote stream and to no local call (go-libp2p-gorpc v0.1.3 server.go:240)",
                      "verif_export.go wrappers (VerifNewCluster, VerifNewRPCServer)",
                      "frozen intent table Spec/C07.lean (which endpoints are meant for local use)",
-                     "the key spellings the pol suite injects (rpc_policy, rpcpolicy, RPCPolicy; CLUSTER_RPCPOLICY, CLUSTER_RPC_POLICY); the follower's assignment is copied by hand in the harness (the model's copy is regenerated)"],
+                     "the key spellings the pol suite injects (rpc_policy, rpcpolicy, RPCPolicy; CLUSTER_RPCPOLICY, CLUSTER_RPC_POLICY); the follower's assignment is copied by hand in the harness (the model's copy is regenerated)",
+                     "the allow-list handshakeMayCall (what identity/version/join handlers may touch) and the go/ast reach walker of extract_c07/reach.go (selector chains through one receiver)"],
     "assumptions": ["a remote call that gets a non-authorization error has passed authorization (calls carry an undecodable argument so that no handler runs)",
                     "go-libp2p-pubsub drops a message whose topic validator returns false; go-ds-crdt learns remote heads only from pubsub",
                     "Distrust only edits the listed set: under '*' and in Raft every peer stays trusted"],
@@ -41,8 +44,11 @@ META = {
             "cluster_config.go (Default/LoadJSON/ApplyEnvVars/applyConfigJSON/setDefaults/configJSON) and every non-test write of RPCPolicy / "
             "DefaultRPCPolicy in the repository into a PolShape the model interprets; theorems: no sequence of configuration sources widens any "
             "endpoint (config_sources_cannot_widen), file/environment entries never reach the table (policy_not_configurable), the configured "
-            "class of an endpoint is respected for every table (configured_class_respected); suite pol drives the real Config loader and a real "
-            "server built from the loaded Config.",
+            "class of an endpoint is respected for every table (configured_class_respected), every entry of the table in effect reads no wider than "
+            "intended (pol_table_meets_spec); suite pol drives the real Config loader, the daemon's cmdutils ConfigHelper path (daemon_path_installs_shipped) and a real "
+            "server built from the loaded Config. The handlers behind the endpoints are regenerated too (calls of all 50 handlers; for the open endpoints the calls followed "
+            "through the methods of *Cluster and the RPC calls made with the serving peer's credentials): no open handler reaches a pinset-mutating / IPFS-driving call "
+            "(open_handlers_never_drive) or forwards to a non-open endpoint (open_handlers_forward_only_open).",
     "note": "Trusted: Lean kernel, the extractor's pattern matcher, gorpc's use of the authorization function, the frozen intent table, the harness.",
     "technique": "Lean 4 theorems over regenerated tables/decision trees (translator) + correspondence run over real libp2p RPC and real CRDT replicas",
 }
